@@ -16,11 +16,15 @@ package crdt
 
 import (
 	"bytes"
+	"errors"
 	"reflect"
 	"sync"
 
 	"github.com/kelindar/binary"
 )
+
+// errInvalidValue is returned when a decoded value is too short to hold its two timestamps.
+var errInvalidValue = errors.New("crdt: invalid value")
 
 // Volatile represents a last-write-wins CRDT set.
 type Volatile struct {
@@ -193,6 +197,11 @@ func (c *codecVolatile) DecodeTo(d *binary.Decoder, rv reflect.Value) (err error
 		v, err := d.ReadSlice()
 		if err != nil {
 			return nil
+		}
+
+		// A value always starts with the add and delete times
+		if len(v) < 16 {
+			return errInvalidValue
 		}
 
 		out.data[binary.ToString(&k)] = decodeValue(binary.ToString(&v))
